@@ -32,6 +32,13 @@
  *   Y<k>:<r|o> uv_signal_start / uv_signal_start_oneshot of user watcher k on SIGCHLD
  *   y<k> uv_signal_stop(k)   X<k> uv_close(k)
  *   H uv_disable_stdio_inheritance(), descriptor table printed before and after
+ *   P<h>:<sig> uv_kill(pid of h, sig)     N<h>:<sig> uv_kill(-pid of h, sig): the process group of
+ *     a detached child (spawn flag d; action prefix F makes the helper fork a grandchild in its group)
+ *   J<h> fate of h's grandchild: its wait status once it is gone (the worker is a subreaper), or "alive"
+ *   O<c|p> fork the worker, uv_loop_fork() in the copy; c: the copy goes on with the script and the
+ *     original only polls its loop, p: the other way round
+ *   E like D but never blocks: makes sure the children that are on their way out are gone, lets a
+ *     polling copy of the loop have its turn, runs the loop twice, prints who is still unreported
  */
 #include <stdio.h>
 #include <stdlib.h>
@@ -46,6 +53,8 @@
 #include <sys/resource.h>
 #include <time.h>
 #include <grp.h>
+#include <poll.h>
+#include <sys/prctl.h>
 #include "uv.h"
 #include "uv-common.h"
 #include "unix/internal.h"
@@ -62,6 +71,7 @@ pid_t __real_waitpid(pid_t, int*, int);
 pid_t __real_fork(void);
 int __real_socketpair(int, int, int, int[2]);
 int __real_pipe2(int[2], int);
+int __real_kill(pid_t, int);
 
 /* ------------------------------------------------------------------ */
 /* child mode                                                           */
@@ -88,7 +98,20 @@ static int child_main(int argc, char** argv) {
   int rfd, gfd, fd, n;
   const char* act;
   if (argc < 5) return 99;
+  pid_t gpid = 0;
   rfd = atoi(argv[2]); gfd = atoi(argv[3]); act = argv[4];
+  if (act[0] == 'F') {
+    /* a grandchild in the helper's process group: waits for the gate, then leaves quietly */
+    act++;
+    gpid = __real_fork();
+    if (gpid == 0) {
+      char c;
+      ssize_t r;
+      if (rfd >= 0) close(rfd);
+      if (gfd >= 0) do r = read(gfd, &c, 1); while (r == -1 && errno == EINTR);
+      _exit(0);
+    }
+  }
   if (rfd >= 0) {
     n = table_string(buf, sizeof buf, -1);
     for (fd = 0; fd < MAXFD; fd++) {
@@ -104,6 +127,8 @@ static int child_main(int argc, char** argv) {
       getresuid(&ur, &ue, &us); getresgid(&gr, &ge, &gs);
       n += snprintf(buf + n, sizeof buf - n, "|%u.%u.%u|%u.%u.%u|%d", (unsigned) ur, (unsigned) ue,
                     (unsigned) us, (unsigned) gr, (unsigned) ge, (unsigned) gs, getgroups(0, NULL));
+      n += snprintf(buf + n, sizeof buf - n, "|%d.%d|%d", getsid(0) == getpid() ? 1 : 0,
+                    getpgrp() == getpid() ? 1 : 0, (int) gpid);
     }
     { ssize_t r = write(rfd, buf, n); (void) r; }
     close(rfd);
@@ -117,7 +142,7 @@ static int child_main(int argc, char** argv) {
   if (act[0] == 's') {
     struct rlimit rl = { 0, 0 };
     setrlimit(RLIMIT_CORE, &rl);
-    kill(getpid(), atoi(act + 1));
+    __real_kill(getpid(), atoi(act + 1));
     for (;;) pause();
   }
   return 98;
@@ -148,6 +173,10 @@ static uv_pipe_t* pipes_h[MAXP][MAXSLOT];
 static int gate_open[32];
 static int spawn_ok[MAXP], gate_of[MAXP], gate_due[32], killed_h[MAXP], stolen_h[MAXP];
 static uv_timer_t timers[32];
+static pid_t gpids[MAXP];
+static int in_uv_kill;
+static int peer_ping = -1, peer_pong = -1;   /* a forked copy of the worker polls its loop */
+static pid_t peer_pid;
 static uv_signal_t* usig[8];
 static int usig_closed[8];
 static int ntimers;
@@ -224,6 +253,18 @@ int __wrap_socketpair(int d, int t, int p, int sv[2]) {
   return __real_socketpair(d, t, p, sv);
 }
 
+int __wrap_kill(pid_t pid, int sig) {
+  int r, e, h;
+  if (!in_uv_kill) return __real_kill(pid, sig);
+  r = __real_kill(pid, sig);
+  e = errno;
+  h = h_of_pid(pid > 0 ? pid : -pid);
+  if (h >= 0) OUT("e%c%d:%d:%d ", pid > 0 ? 'c' : 'g', h, sig, r == 0 ? 0 : e);
+  else OUT("e?%d:%d:%d ", (int) pid, sig, r == 0 ? 0 : e);
+  errno = e;
+  return r;
+}
+
 int __wrap_pipe2(int fds[2], int flags) {
   if (cur_spawn >= 0 && inj_pipe) { errno = EMFILE; return -1; }
   return __real_pipe2(fds, flags);
@@ -283,7 +324,7 @@ static void place(int tmp, int fd, int cx) {
 static void do_spawn(char* tok) {
   /* S<h>:<stdio>:<action>:<gate>:<flags> */
   char *f[5], *save = NULL, *s;
-  int i, h, n = 0, gate, report = 0, bad_exec = 0, nocb = 0, r, set_uid = -1, set_gid = -1;
+  int i, h, n = 0, gate, report = 0, bad_exec = 0, nocb = 0, r, set_uid = -1, set_gid = -1, detached = 0;
   uv_process_options_t opt;
   uv_stdio_container_t stdio[MAXSLOT];
   char rfd_s[16], gfd_s[16];
@@ -300,6 +341,7 @@ static void do_spawn(char* tok) {
     else if (*s == 'p') inj_pipe = 1;
     else if (*s == 'f') inj_fork = 1;
     else if (*s == 's') { inj_sp = atoi(s + 1); while (s[1] >= '0' && s[1] <= '9') s++; }
+    else if (*s == 'd') detached = 1;
     else if (*s == 'u') { set_uid = atoi(s + 1); while (s[1] >= '0' && s[1] <= '9') s++; }
     else if (*s == 'g') { set_gid = atoi(s + 1); while (s[1] >= '0' && s[1] <= '9') s++; }
   }
@@ -327,6 +369,7 @@ static void do_spawn(char* tok) {
   opt.stdio = stdio;
   opt.stdio_count = n;
   opt.exit_cb = nocb ? NULL : exit_cb;
+  if (detached) opt.flags |= UV_PROCESS_DETACHED;
   if (set_uid >= 0) { opt.flags |= UV_PROCESS_SETUID; opt.uid = set_uid; }
   if (set_gid >= 0) { opt.flags |= UV_PROCESS_SETGID; opt.gid = set_gid; }
   {
@@ -363,6 +406,7 @@ static void do_spawn(char* tok) {
     }
     buf[got] = 0;
     close(REPORT_R);
+    { char* bar = strrchr(buf, '|'); if (bar) gpids[h] = atoi(bar + 1); }
     OUT("c%d:%s ", h, got ? buf : "-");
     OUT("t%d:", h);
     for (i = 0; i < n; i++) {
@@ -386,6 +430,7 @@ static void run_case(char* line) {
   int nullfd;
 
   alarm(6);
+  prctl(PR_SET_CHILD_SUBREAPER, 1);     /* orphaned grandchildren come to us and can be waited for */
   signal(SIGABRT, on_abort);
   resfd = fcntl(1, F_DUPFD_CLOEXEC, 250);
   for (fd = 3; fd < 1024; fd++) if (fd != resfd) close(fd);
@@ -537,8 +582,118 @@ static void run_case(char* line) {
     case 'W': uv__wait_children(&loop); break;
     case 'K':
       if (sscanf(tok + 1, "%d:%d", &a, &b) == 2 && a >= 0 && a < MAXP && procs[a])
-        { killed_h[a] = 1; OUT("k%d:%d ", a, uv_process_kill(procs[a], b)); }
+        { int r; killed_h[a] = (b != 0); in_uv_kill = 1; r = uv_process_kill(procs[a], b); in_uv_kill = 0; OUT("k%d:%d ", a, r); }
       break;
+    case 'P': case 'N':
+      if (sscanf(tok + 1, "%d:%d", &a, &b) == 2 && a >= 0 && a < MAXP && spawned[a]) {
+        int r;
+        in_uv_kill = 1;
+        r = uv_kill(tok[0] == 'P' ? pids[a] : -pids[a], b);
+        in_uv_kill = 0;
+        if (r == 0 && b != 0) killed_h[a] = 1;
+        OUT("k%d:%d ", a, r);
+      }
+      break;
+    case 'J': {
+      int h = atoi(tok + 1), st = 0;
+      if (h >= 0 && h < MAXP && gpids[h] > 0) {
+        pid_t r;
+        /* block only when the grandchild must be on its way out: its group was signalled.  It
+         * becomes our child (we are a subreaper) when its parent, the helper, has gone. */
+        if (killed_h[h]) {
+          siginfo_t si;
+          int q;
+          do q = waitid(P_PID, pids[h], &si, WEXITED | WNOWAIT); while (q == -1 && errno == EINTR);
+        }
+        do r = __real_waitpid(gpids[h], &st, killed_h[h] ? 0 : WNOHANG); while (r == -1 && errno == EINTR);
+        if (r == gpids[h]) { OUT("j%d:%d ", h, st); gpids[h] = -1; }
+        else if (r == 0) OUT("j%d:alive ", h);
+        else {
+          /* not our child (yet): its parent, the helper, is still there */
+          OUT("j%d:%s ", h, __real_kill(gpids[h], 0) == 0 ? "alive" : "gone");
+        }
+      } else OUT("j%d:none ", h);
+      break;
+    }
+    case 'O': {
+      int ping[2], pong[2];
+      pid_t cp;
+      int spawner_is_copy = tok[1] == 'c', i_am_copy, fdp;
+      if (__real_pipe2(ping, O_CLOEXEC) != 0 || __real_pipe2(pong, O_CLOEXEC) != 0) { OUT("fork-pipes-failed "); break; }
+      for (fdp = 0; fdp < 2; fdp++) {
+        int x = fcntl(ping[fdp], F_DUPFD_CLOEXEC, 220); close(ping[fdp]); ping[fdp] = x;
+        x = fcntl(pong[fdp], F_DUPFD_CLOEXEC, 220); close(pong[fdp]); pong[fdp] = x;
+      }
+      cp = __real_fork();
+      if (cp < 0) { OUT("fork-failed "); break; }
+      i_am_copy = cp == 0;
+      if (i_am_copy) {
+        int r = uv_loop_fork(&loop);
+        if (r != 0) OUT("loop-fork-failed:%d ", r);
+      }
+      if (i_am_copy != spawner_is_copy) {
+        /* the poller: keeps its loop turning until the other side hangs up */
+        char b;
+        close(ping[1]); close(pong[0]);
+        for (;;) {
+          struct pollfd pf[2];
+          pf[0].fd = uv_backend_fd(&loop); pf[0].events = POLLIN; pf[0].revents = 0;
+          pf[1].fd = ping[0]; pf[1].events = POLLIN; pf[1].revents = 0;
+          if (poll(pf, 2, -1) < 0 && errno != EINTR) break;
+          if (pf[1].revents) {
+            ssize_t k;
+            do k = read(ping[0], &b, 1); while (k == -1 && errno == EINTR);
+            if (k <= 0) break;
+            uv_run(&loop, UV_RUN_NOWAIT);
+            uv_run(&loop, UV_RUN_NOWAIT);
+            do k = write(pong[1], "p", 1); while (k == -1 && errno == EINTR);
+          } else {
+            uv_run(&loop, UV_RUN_NOWAIT);
+          }
+        }
+        if (!i_am_copy) { int st; do {} while (__real_waitpid(cp, &st, 0) == -1 && errno == EINTR); }
+        _exit(0);
+      }
+      close(ping[0]); close(pong[1]);
+      peer_ping = ping[1]; peer_pong = pong[0];
+      peer_pid = i_am_copy ? 0 : cp;
+      OUT("O%c ", tok[1]);
+      {  /* wait until the poller has registered its watchers */
+        char b; ssize_t k;
+        do k = write(peer_ping, "x", 1); while (k == -1 && errno == EINTR);
+        do k = read(peer_pong, &b, 1); while (k == -1 && errno == EINTR);
+      }
+      break;
+    }
+    case 'E': {
+      int h, first = 1;
+      for (h = 0; h < 32; h++) if (gate_due[h]) release_gate(h);
+      for (h = 0; h < MAXP; h++)
+        if (spawned[h] && spawn_ok[h] && !closed[h] && !stolen_h[h] && procs[h] &&
+            uv_is_active((uv_handle_t*) procs[h]) &&
+            (gate_of[h] < 0 || gate_due[gate_of[h]] || killed_h[h])) {
+          siginfo_t si;
+          int r;
+          do r = waitid(P_PID, pids[h], &si, WEXITED | WNOWAIT); while (r == -1 && errno == EINTR);
+        }
+      if (peer_ping >= 0) {
+        char b; ssize_t k;
+        do k = write(peer_ping, "x", 1); while (k == -1 && errno == EINTR);
+        do k = read(peer_pong, &b, 1); while (k == -1 && errno == EINTR);
+      }
+      uv_run(&loop, UV_RUN_NOWAIT);
+      uv_run(&loop, UV_RUN_NOWAIT);
+      for (h = 0; h < MAXP; h++)
+        if (spawned[h] && spawn_ok[h] && !closed[h] && !stolen_h[h] && procs[h] &&
+            uv_is_active((uv_handle_t*) procs[h]) &&
+            (gate_of[h] < 0 || gate_due[gate_of[h]] || killed_h[h])) {
+          if (first) OUT("stuck:lost:");
+          OUT("%s%d", first ? "" : ",", h);
+          first = 0;
+        }
+      if (!first) OUT(" ");
+      break;
+    }
     case 'Z': {
       int h = atoi(tok + 1), st;
       if (h >= 0 && h < MAXP && spawned[h]) {
@@ -585,6 +740,11 @@ static void run_case(char* line) {
   /* teardown: let everybody go, collect what libuv left behind */
   if (setresuid(-1, 0, -1) != 0 || setresgid(-1, 0, -1) != 0) OUT("cannot-regain-root ");
   for (i = 0; i < 32; i++) release_gate(i);
+  if (peer_ping >= 0) {
+    int st;
+    close(peer_ping);
+    if (peer_pid > 0) do {} while (__real_waitpid(peer_pid, &st, 0) == -1 && errno == EINTR);
+  }
   cur_spawn = -2;
   {
     int left[MAXP], nleft = 0, st, j, k;
@@ -593,6 +753,7 @@ static void run_case(char* line) {
       do r = __real_waitpid(-1, &st, 0); while (r == -1 && errno == EINTR);
       if (r <= 0) break;
       j = h_of_pid(r);
+      if (j < 0) continue;              /* a grandchild that was handed to us */
       if (nleft < MAXP) left[nleft++] = j;
     }
     for (j = 0; j < nleft; j++) for (k = j + 1; k < nleft; k++)
@@ -648,7 +809,7 @@ int main(int argc, char** argv) {
         nanosleep(&nap, NULL);
         clock_gettime(CLOCK_MONOTONIC, &t1);
         if (t1.tv_sec - t0.tv_sec >= 8) {
-          kill(w, SIGKILL);
+          __real_kill(w, SIGKILL);
           do r = __real_waitpid(w, &st, 0); while (r == -1 && errno == EINTR);
           break;
         }
